@@ -8,6 +8,7 @@ from . import tlc as T
 from .sctp_env import Env
 
 MTU = 1200
+LIFETIME_MS = 60000   # far above the wall-clock advance of the few T3 firings of a replay (RTO <= 3 s each)
 
 
 class Config:
@@ -18,8 +19,9 @@ class Config:
         self.drop, self.dup, self.t3, self.maxnet, self.cntcap = drop, dup, t3, maxnet, cntcap
 
     def mc_module(self):
-        ch = " @@ ".join("%d :> [sid |-> %d, ordered |-> %s, maxRtx |-> %d]" % (
-            c, v["sid"], "TRUE" if v["ordered"] else "FALSE", v["maxRtx"]) for c, v in sorted(self.chans.items()))
+        ch = " @@ ".join("%d :> [sid |-> %d, ordered |-> %s, maxRtx |-> %d, life |-> %s]" % (
+            c, v["sid"], "TRUE" if v["ordered"] else "FALSE", v["maxRtx"], "TRUE" if v.get("life") else "FALSE")
+            for c, v in sorted(self.chans.items()))
         ms = ", ".join("[ch |-> %d, frags |-> <<%s>>]" % (c, ", ".join(str(x) for x in fr)) for c, fr in self.msgs)
         return ("---- MODULE MC_SctpAssoc ----\nEXTENDS SctpAssoc\nMCChans == (%s)\nMCMsgs == << %s >>\n====\n" % (ch, ms))
 
@@ -57,6 +59,9 @@ CONFIGS = {
                       [(2, [10]), (3, [10]), (2, [10]), (2, [10])], drop=2, t3=1, maxnet=3),
     # a lost FORWARD-TSN
     "pr-fwdloss": Config("pr-fwdloss", MIX, [(2, [10]), (1, [10])], drop=2, t3=2, maxnet=3),
+    # a lifetime-limited ordered channel next to a reliable one
+    "pr-life": Config("pr-life", {1: dict(sid=1, ordered=True, maxRtx=-1), 2: dict(sid=2, ordered=True, maxRtx=-1, life=True)},
+                      [(2, [1200, 10]), (1, [10]), (2, [10])], drop=1, t3=1, maxnet=3),
     "pr-small": Config("pr-small", MIX, [(2, [1200, 10]), (1, [10]), (2, [10]), (1, [1200, 10])], drop=1, t3=1, maxnet=3),
     "pr-big": Config("pr-big", MIX, [(2, [1200, 1200, 1200, 1200, 10]), (1, [1200, 10]), (2, [10])], drop=2, t3=1, maxnet=3),
     "pr-mix": Config("pr-mix", MIXU, [(2, [1200, 10]), (3, [1200, 10]), (1, [10]), (3, [10]), (2, [10])],
@@ -64,7 +69,13 @@ CONFIGS = {
 }
 
 # larger configurations for -simulate (replay material)
+MIXL = {1: dict(sid=1, ordered=True, maxRtx=-1), 2: dict(sid=2, ordered=False, maxRtx=0),
+        3: dict(sid=3, ordered=True, maxRtx=1), 4: dict(sid=4, ordered=True, maxRtx=-1, life=True)}
+
 SIM_CONFIGS = {
+    "sim-life": Config("sim-life", MIXL, [(4, [1200, 1200, 10]), (1, [10]), (2, [1200, 10]), (4, [10]), (3, [1200, 10]),
+                                          (1, [1200, 1200, 10]), (4, [1200, 10]), (2, [10]), (4, [10])],
+                       drop=5, dup=2, t3=3, maxnet=99, cntcap=5),
     "sim-rel": Config("sim-rel", REL, [(1, [1200, 1200, 10]), (2, [10]), (1, [1200]), (2, [1200, 1200, 1200, 10]),
                                         (1, [10]), (1, [1200, 10]), (2, [10]), (1, [1200, 1200, 1200, 1200, 1200, 10])],
                       drop=5, dup=2, t3=3, maxnet=99, cntcap=5),
@@ -107,6 +118,8 @@ class LockStep:
             kw = dict(label="c%d" % c, protocol="", ordered=v["ordered"])
             if v["maxRtx"] >= 0:
                 kw["maxRetransmits"] = v["maxRtx"]
+            elif v.get("life"):
+                kw["maxPacketLifeTime"] = LIFETIME_MS
             self.tok[c] = env.create("A", **kw)
             self._settle()
         a, b = env.ep["A"], env.ep["B"]
@@ -190,6 +203,8 @@ class LockStep:
             if not ts:
                 return False
             env.fire(ts[0])
+        elif op == "expire":
+            env.advance(LIFETIME_MS / 1000.0 + 0.5)
         elif op == "heal":
             env.healed = True
             env.ev(k="heal")
@@ -280,7 +295,7 @@ class LockStep:
                     env.send("A", self.tok[c], 10, "bytes", probe=True)
             env.heal_and_drain()
             env.quiesce()
-        pr = any(v["maxRtx"] >= 0 for v in self.cfg.chans.values())
+        pr = any(v["maxRtx"] >= 0 or v.get("life") for v in self.cfg.chans.values())
         return {"events": env.events, "pr": pr, "matched": matched, "steps": self.steps,
                 "mismatch": self.mismatch, "ops": [], "origin": [None, None]}
 
